@@ -35,24 +35,57 @@ class D:
         return hash('D')
 
 
-TYPES = {'object': object, 'A': A, 'B': B, 'C': C, 'D': D, 'int': int, 'str': str}
+import collections.abc as _abc
+import numbers as _numbers
+
+# plain classes, abstract base classes that concrete classes are only *registered* with (tuple is a Sequence,
+# int and float are Numbers: subclass relations that do not show in __mro__), and "any of" aggregations
+TYPES = {'object': object, 'A': A, 'B': B, 'C': C, 'D': D, 'int': int, 'str': str,
+         'tuple': tuple, 'Seq': _abc.Sequence, 'Num': _numbers.Number, 'float': float}
 # values and the lattice types they are instances of
 VALUES = {
     'a': (A, lambda: A()), 'b': (B, lambda: B()), 'c': (C, lambda: C()), 'd': (D, lambda: D()),
     'i': (int, lambda: 7), 's': (str, lambda: 'txt'), 'n': (type(None), lambda: None),
+    't': (tuple, lambda: (1, 2)), 'f': (float, lambda: 2.5),
 }
+
+
+def is_anyof(tname):
+    return tname.startswith('anyof:')
+
+
+def anyof_parts(tname):
+    return tname[len('anyof:'):].split(',')
+
+
+def accepts(tname, value):
+    """does a non-null python value pass the type named tname?"""
+    if is_anyof(tname):
+        return any(isinstance(value, TYPES[t]) for t in anyof_parts(tname))
+    return isinstance(value, TYPES[tname])
 
 
 def instance_of(vkey, tname):
     if vkey == 'n':
         return False
+    if is_anyof(tname):
+        return any(issubclass(VALUES[vkey][0], TYPES[t]) for t in anyof_parts(tname))
     return issubclass(VALUES[vkey][0], TYPES[tname])
 
 
 def strictly_more_specific(t1, t2):
-    """t1 is a proper subclass of t2 (the documented meaning of 'more specific')"""
+    """t1 is a proper subclass of t2 (the documented meaning of 'more specific'); aggregated types are
+    not ordered against anything"""
+    if is_anyof(t1) or is_anyof(t2):
+        return False
     a, b = TYPES[t1], TYPES[t2]
     return issubclass(a, b) and not issubclass(b, a)
+
+
+def smart_type(tname, nullable):
+    if is_anyof(tname):
+        return yt.AnyOf(*[TYPES[t] for t in anyof_parts(tname)], nullable=nullable)
+    return yt.PythonType(TYPES[tname], nullable)
 
 
 class ParamSpec:
@@ -127,10 +160,8 @@ class OverloadSpec:
                 fn = yspecs.inject(p.name, yt.Context())(fn)
             elif p.lazy:
                 fn = yspecs.parameter(p.name, yt.Lambda())(fn)
-            elif p.kind == 'kwargs' or p.kind == 'varargs':
-                fn = yspecs.parameter(p.name, yt.PythonType(TYPES[p.tname], p.nullable))(fn)
             else:
-                fn = yspecs.parameter(p.name, yt.PythonType(TYPES[p.tname], p.nullable))(fn)
+                fn = yspecs.parameter(p.name, smart_type(p.tname, p.nullable))(fn)
         if self.kind == 'method':
             fn = yspecs.method(fn)
         elif self.kind == 'extension':
